@@ -544,6 +544,24 @@ fn xen_regions(k: &K) {
         if !pe.is_empty() {
             k.ctx.fail(&format!("C18/xen/{}/device-protocol", tag), &format!("{:?}", pe), json!({"region": tag}));
         }
+        if kind == 3 {
+            // "for any address or offset": what a zero-length access does may not depend on where
+            // it points. The sweep is repeated for one address at a time; the number of requests
+            // the grant device sees must be the same for page-aligned and unaligned addresses.
+            let mut counts: Vec<(u64, usize)> = Vec::new();
+            for addr in [0x8000u64, 0x8010, 0x8fff, 0x9000, 0x9001, 0x9fff] {
+                emu.take_log();
+                region_and_memory(k, "xen-grant-on-demand(one address)", &m, &[addr], &[], &snap);
+                counts.push((addr, emu.take_log().len()));
+            }
+            if counts.iter().any(|c| c.1 != counts[0].1) {
+                k.ctx.fail("C18/xen/xen-grant-on-demand/device-requests-depend-on-the-address", &format!("requests seen by the grant device during the zero-length sweep, per address: {:x?}", counts), json!({"region": tag, "per_address": counts}));
+            }
+            k.ctx.extra("device_requests_per_address_during_zero_length_sweep", json!(counts));
+            emu.state.borrow_mut().live.clear();
+            emu.state.borrow_mut().refs.clear();
+            emu.state.borrow_mut().protocol_errors.clear();
+        }
         drop(m);
     }
 }
@@ -551,7 +569,7 @@ fn xen_regions(k: &K) {
 pub fn run(tier: Tier, replay: Option<String>) -> i32 {
     let ctx = crate::new_ctx("C18", tier, "exploration", &replay);
     let build: &'static str = if cfg!(feature = "xen") { "xen" } else { "std" };
-    ctx.set_rule("every zero-length form of the byte-access interface - write/read/write_slice/read_slice with an empty buffer, write_obj/read_obj of the crate's zero-sized types ([u8;0] .. [u128;0], [i8;0], [usize;0]), the four stream forms with count 0 (in-memory, File, UnixStream and a minimal stream; in-memory streams in every state a history leaves them in: cursors over 0 and 4 bytes at positions before, at and beyond the end incl. u64::MAX and after a truncation, exhausted slices, full sinks, vectors with spare capacity - the stream may not move), VolatileSlice::copy_to/copy_from and VolatileArrayRef::copy_to/copy_from/copy_to_volatile_slice with zero-sized elements, empty buffers, zero element counts and empty destinations - x three layers (volatile slice incl. an empty container, region, guest memory; mmap collection and trait-default implementation) x address classes {mapped, last byte, one past a region / the end, in a hole, out of range, 0, u64::MAX / usize::MAX} (stream and copy forms: addresses valid for a non-empty access); Xen build: UNIX, foreign, grant in advance and grant on demand on the emulated devices. Required: Ok(0)/Ok(()), no panic/abort/fault, memory and dirty bitmap identical before and after. One case = one form at one address; distinct by construction; all are non-trivial (each reaches the implementation).");
+    ctx.set_rule("every zero-length form of the byte-access interface - write/read/write_slice/read_slice with an empty buffer, write_obj/read_obj of the crate's zero-sized types ([u8;0] .. [u128;0], [i8;0], [usize;0]), the four stream forms with count 0 (in-memory, File, UnixStream and a minimal stream; in-memory streams in every state a history leaves them in: cursors over 0 and 4 bytes at positions before, at and beyond the end incl. u64::MAX and after a truncation, exhausted slices, full sinks, vectors with spare capacity - the stream may not move), VolatileSlice::copy_to/copy_from and VolatileArrayRef::copy_to/copy_from/copy_to_volatile_slice with zero-sized elements, empty buffers, zero element counts and empty destinations - x three layers (volatile slice incl. an empty container, region, guest memory; mmap collection and trait-default implementation) x address classes {mapped, last byte, one past a region / the end, in a hole, out of range, 0, u64::MAX / usize::MAX} (stream and copy forms: addresses valid for a non-empty access); Xen build: UNIX, foreign, grant in advance and grant on demand on the emulated devices, on the on-demand region the sweep is repeated one address at a time and the number of requests the grant device sees must not depend on the address (page-aligned or not). Required: Ok(0)/Ok(()), no panic/abort/fault, memory and dirty bitmap identical before and after. One case = one form at one address; distinct by construction; all are non-trivial (each reaches the implementation).");
     ctx.assume("the element count reported for copies of zero-sized elements is recorded, not judged; device windows requested for zero-length accesses on on-demand regions are counted, not judged");
     if ctx.replay_of.is_some() {
         println!("replay: deterministic enumeration; re-running it");
